@@ -618,6 +618,14 @@ func (o *Oracle) checkRestoreReturn(c *Call, inc *Inc) {
 	if c.Err != "" {
 		// outcome unknown if the supplied snapshot became durable anywhere
 		for _, e := range o.epochs {
+			if e.state.Epoch == epoch {
+				// the restore took effect on this server (snapshot durable, FSM replaced, indexes burned)
+				// but was not carried to the cluster: from here on servers hold states of different
+				// histories that replication cannot reconcile (DESIGN.md §0.4, "a user Restore that loses
+				// leadership half-way"); C20 promises nothing for a Restore that returned an error
+				o.restoreAborted = true
+				w.stats.probe("user_restore_failed_after_it_took_effect_locally")
+			}
 			if e.state.Epoch == epoch && o.tainted == "" {
 				o.tainted = fmt.Sprintf("Restore(epoch %d) on %s failed with %q after its snapshot became durable", epoch, inc.tag, c.Err)
 				w.event("tainted: %s", o.tainted)
